@@ -158,6 +158,8 @@ GuardVal(g, env) ==
   CASE g \in {"none", "T", "stmt-T"} -> TRUE
     [] g \in {"F", "stmt-F"} -> FALSE
     [] g \in {"x1", "stmt-x1"} -> Final(env, "x") = <<"int", 1>>
+    \* a guard that needs statements and reads every name the pattern binds (it is true)
+    [] g = "stmt-all" -> TRUE
 GuardOK(c) == c.guard \in {"x1", "stmt-x1"} => "x" \in Names(c.pat)
 
 ProgValid(prog) ==
@@ -198,7 +200,7 @@ Level1 ==
   \cup {<<"cls", c, ps, <<>>>> : c \in {"int", "str", "list"}, ps \in SeqsUpTo({<<"cap", "x">>, <<"lit", I(1)>>}, 1)}
   \cup {<<"or", <<a, b>>>> : a \in Atoms, b \in Atoms}
   \cup {<<"as", a, "z">> : a \in Atoms}
-Guards == {"none", "T", "F", "stmt-T", "stmt-F", "x1", "stmt-x1"}
+Guards == {"none", "T", "F", "stmt-T", "stmt-F", "x1", "stmt-x1", "stmt-all"}
 
 FileProgs == IF Mode = "file" THEN ndJsonDeserialize(IOEnv.PROG_FILE) ELSE <<>>
 VARIABLE prog
